@@ -256,6 +256,48 @@ fn intra_cases(drv: &mut Drv, rep: &mut Report, rng: &mut Rng, n: usize) {
     }
 }
 
+/// `read_frame_header` (hook cee2c32) against the model Vp8Header.parse: synthetic key frames whose
+/// first partition is random or written field by field with boundary values (segment header, filter
+/// header, deltas, partition count, quantiser indices, probability updates, skip probability),
+/// whole and with the first partition cut short (the code's `check`s must report the exhaustion)
+fn header_cases(drv: &mut Drv, rep: &mut Report, rng: &mut Rng, n: usize) {
+    for i in 0..n {
+        let (w, h) = (1 + rng.below(40) as u32, 1 + rng.below(40) as u32);
+        let style = rng.next();
+        let (mut vp8, _) = synth_frame(rng, w, h, style);
+        let p0len = ((vp8[0] as usize) | ((vp8[1] as usize) << 8) | ((vp8[2] as usize) << 16)) >> 5;
+        if i % 4 == 3 {
+            // cut the first partition to a few bytes; the partition sizes and partitions follow as before
+            let keep = rng.below(40) as usize;
+            let keep = keep.min(p0len);
+            let tag: u32 = (1 << 4) | ((keep as u32) << 5);
+            let mut cut = tag.to_le_bytes()[..3].to_vec();
+            cut.extend_from_slice(&vp8[3..10 + keep]);
+            cut.extend_from_slice(&vp8[10 + p0len..]);
+            vp8 = cut;
+        }
+        let p0len = ((vp8[0] as usize) | ((vp8[1] as usize) << 8) | ((vp8[2] as usize) << 16)) >> 5;
+        let p0 = &vp8[10..10 + p0len];
+        let line = format!("vp8hdr {}", if p0.is_empty() { "-".to_string() } else { hex(p0) });
+        let got = match catch(|| hk::vp8_frame_header(&vp8)) {
+            Ok(Ok((v, probs))) => format!("{} {}", v.iter().map(|x| x.to_string()).collect::<Vec<_>>().join(","), hex(&probs)),
+            Ok(Err(_)) => "err".to_string(),
+            Err(m) => format!("PANIC {m}"),
+        };
+        let exp = drv.ask(&line);
+        rep.case(&line, true);
+        rep.hit(if got == "err" { "frame_header_error" } else { "frame_header_parsed" });
+        // an error of the real function that the model does not predict can come from the partition
+        // layout behind the first partition (not part of the model): counted, not compared
+        if got == "err" && exp != "err" { rep.hit("frame_header_error_outside_the_model(partition layout)"); continue; }
+        if got != exp {
+            let (gv, ev): (Vec<&str>, Vec<&str>) = (got.split(|c| c == ',' || c == ' ').collect(), exp.split(|c| c == ',' || c == ' ').collect());
+            let k = gv.iter().zip(ev.iter()).position(|(a, b)| a != b).unwrap_or(gv.len().min(ev.len()));
+            rep.disagree(Disagreement { case: line, got: gv.get(k).map(|s| s.chars().take(60).collect()).unwrap_or_default(), expected: ev.get(k).map(|s| s.chars().take(60).collect()).unwrap_or_default(), class: "violation", obligation: "C02: the frame header fields are read from the first partition as RFC 6386 sections 9.2 - 9.11 / 19.2 define (model Vp8Header.parse over the boolean decoder of C15)".into(), detail: format!("first differing field: #{k} of pixel type, segments enabled, update map, delta values, 4 quantiser levels, 4 filter levels, 3 tree probabilities, filter type, level, sharpness, 4 ref deltas, 4 mode deltas, partitions, 24 factors, skip probability, token probabilities") });
+        }
+    }
+}
+
 /// `read_coefficients` (hook 99a8eca) against the model Vp8Coef.readCoefficients: random and biased
 /// partitions (long zero runs, end-of-block right away, large categories), the crate's default
 /// probabilities and random ones (incl. 0 and 255), every plane and starting context, several calls
@@ -747,6 +789,7 @@ pub fn run(o: &Opts) -> Report {
     loopfilter_cases(&mut drv, &mut rep, &mut rng, if o.thorough() { 12000 } else { 900 });
     residual_cases(&mut drv, &mut rep, &mut rng, if o.thorough() { 20000 } else { 1500 });
     intra_cases(&mut drv, &mut rep, &mut rng, if o.thorough() { 15000 } else { 1500 });
+    header_cases(&mut drv, &mut rep, &mut rng, if o.thorough() { 6000 } else { 600 });
     fparam_cases(&mut drv, &mut rep, &mut rng, if o.thorough() { 100000 } else { 6000 });
     // (b) frames
     let n = if o.thorough() { 1200 } else { 160 };
